@@ -47,7 +47,7 @@ def _pump_sleep_lines():
     src = (REPO / "src" / "geckolib" / "async_spa_manager.py").read_text()
     for n in ast.walk(ast.parse(src)):
         if isinstance(n, ast.AsyncFunctionDef) and n.name == "_sequence_pump":
-            return {a.lineno for a in ast.walk(n) if isinstance(a, ast.Await) and "sleep" in ast.unparse(a)}
+            return {a.lineno for a in ast.walk(n) if isinstance(a, ast.Await) and "asyncio.sleep" in ast.unparse(a)}
     return set()
 
 
